@@ -234,3 +234,86 @@ Section Frame.
       cbn [opt_states map rms_velocity rms_gradient rms_buffer]. rewrite !slot_set_frame by exact Hne. reflexivity.
   Qed.
 End Frame.
+
+(* ---- attaching the optimizer again: the state is zero-initialised whatever the value held ---- *)
+Section Reattach.
+  Variable N : Num.
+  Notation optimizer := (optimizer N).
+  Notation slots := (slots N).
+
+  (* the hyper-parameters of an optimizer value: the value with its running statistics dropped *)
+  Definition hyper (o : optimizer) : optimizer :=
+    match o with
+    | OSGD p => OSGD p
+    | OSGDM p => OSGDM {| sgdm_lr := sgdm_lr p; sgdm_momentum := sgdm_momentum p;
+                          sgdm_dampening := sgdm_dampening p; sgdm_decay := sgdm_decay p;
+                          sgdm_velocity := [] |}
+    | OAdam p => OAdam {| adam_lr := adam_lr p; adam_b1 := adam_b1 p; adam_b2 := adam_b2 p;
+                          adam_eps := adam_eps p; adam_decay := adam_decay p;
+                          adam_velocity := []; adam_momentum := [] |}
+    | OAdamW p => OAdamW {| adamw_lr := adamw_lr p; adamw_b1 := adamw_b1 p; adamw_b2 := adamw_b2 p;
+                            adamw_eps := adamw_eps p; adamw_decay := adamw_decay p;
+                            adamw_velocity := []; adamw_momentum := [] |}
+    | ORMS p => ORMS {| rms_lr := rms_lr p; rms_alpha := rms_alpha p; rms_eps := rms_eps p;
+                        rms_decay := rms_decay p; rms_momentum := rms_momentum p;
+                        rms_centered := rms_centered p;
+                        rms_velocity := []; rms_gradient := []; rms_buffer := [] |}
+    end.
+
+  (* validate installs the given state and reads nothing of the state held before *)
+  Lemma validate_reads_hyper_only (o : optimizer) (v : slots) :
+    opt_validate o v = opt_validate (hyper o) v.
+  Proof. destruct o; reflexivity. Qed.
+
+  (* a step never changes a hyper-parameter *)
+  Lemma update_keeps_hyper (o o' : optimizer) l f b s w g w' g' :
+    opt_update o l f b s w g = Ok (o', w', g') -> hyper o' = hyper o.
+  Proof.
+    destruct o as [p|p|p|p|p]; cbn [opt_update]; intros H.
+    - destruct (lift_tensor _ w [g]); cbn [bind] in H; [|discriminate]. inversion H; reflexivity.
+    - destruct (slot_get (sgdm_velocity p) l f b); cbn [bind] in H; [|discriminate].
+      destruct (lift_tensor _ w _) as [r|]; cbn [bind] in H; [|discriminate].
+      destruct (snd r) as [|x1 [|x2 [|x3 xs]]]; try discriminate. inversion H; reflexivity.
+    - destruct (slot_get (adam_momentum p) l f b); cbn [bind] in H; [|discriminate].
+      destruct (slot_get (adam_velocity p) l f b); cbn [bind] in H; [|discriminate].
+      destruct (lift_tensor _ w _) as [r|]; cbn [bind] in H; [|discriminate].
+      destruct (snd r) as [|x1 [|x2 [|x3 [|x4 xs]]]]; try discriminate. inversion H; reflexivity.
+    - destruct (slot_get (adamw_momentum p) l f b); cbn [bind] in H; [|discriminate].
+      destruct (slot_get (adamw_velocity p) l f b); cbn [bind] in H; [|discriminate].
+      destruct (lift_tensor _ w _) as [r|]; cbn [bind] in H; [|discriminate].
+      destruct (snd r) as [|x1 [|x2 [|x3 [|x4 xs]]]]; try discriminate. inversion H; reflexivity.
+    - destruct (slot_get (rms_velocity p) l f b); cbn [bind] in H; [|discriminate].
+      destruct (slot_get (rms_gradient p) l f b); cbn [bind] in H; [|discriminate].
+      destruct (slot_get (rms_buffer p) l f b); cbn [bind] in H; [|discriminate].
+      destruct (lift_tensor _ w _) as [r|]; cbn [bind] in H; [|discriminate].
+      destruct (snd r) as [|x1 [|x2 [|x3 [|x4 [|x5 xs]]]]]; try discriminate. inversion H; reflexivity.
+  Qed.
+
+  (* any history of steps (on any slots, with any step numbers, values and gradients) *)
+  Inductive stepped : optimizer -> optimizer -> Prop :=
+  | stepped_refl o : stepped o o
+  | stepped_step o o1 o2 l f b s w g w' g' :
+      stepped o o1 -> opt_update o1 l f b s w g = Ok (o2, w', g') -> stepped o o2.
+
+  Lemma stepped_keeps_hyper o o' : stepped o o' -> hyper o' = hyper o.
+  Proof.
+    induction 1 as [o|o o1 o2 l f b s w g w' g' _ IH Hu]; [reflexivity|].
+    rewrite (update_keeps_hyper _ _ _ _ _ _ _ Hu). exact IH.
+  Qed.
+
+  Lemma dflt_idem (x d : T N) : dflt N (dflt N x d) d = dflt N x d.
+  Proof. unfold dflt. destruct (is0 N x) eqn:E; [destruct (is0 N d); reflexivity|rewrite E; reflexivity]. Qed.
+
+  Lemma validate_twice (o : optimizer) (v1 v2 : slots) :
+    opt_validate (opt_validate o v1) v2 = opt_validate o v2.
+  Proof. destruct o; cbn [opt_validate]; cbn; rewrite ?dflt_idem; reflexivity. Qed.
+
+  (* the optimizer value that was attached with any state v1, stepped through ANY history, and is attached
+     again with state v2 is the value a fresh attachment with v2 gives: no running statistic survives *)
+  Theorem reattach_is_fresh (o o' : optimizer) (v1 v2 : slots) :
+    stepped (opt_validate o v1) o' -> opt_validate o' v2 = opt_validate o v2.
+  Proof.
+    intros H. rewrite validate_reads_hyper_only, (stepped_keeps_hyper H),
+      <- validate_reads_hyper_only. apply validate_twice.
+  Qed.
+End Reattach.
